@@ -16,7 +16,7 @@ SPEC = {
     "build_comp": "fwrules",
     "props": ["props/C16.v"],
     "corr": ["corr/Firewall_corr.v"],
-    "comps": [{"comp": "fwrules", "n_quick": 1000, "n_thorough": 20000}],
+    "comps": [{"comp": "fwrules", "n_quick": 800, "n_thorough": 20000}],
     "trusted": ["model/Firewall.v add_rule/table_match/drop_ct are hand-written mirrors of Firewall.AddRule/FirewallTable.match/Firewall.Drop (tied by correspondence)",
                 "lib/Ip.v models bart.Lite / bart.Table as prefix sets with contains / longest-prefix-match / supernets semantics",
                 "gen/Consts_Firewall.v is printed from firewall/packet.go constants by the harness"],
